@@ -10,6 +10,7 @@ import VrlProofs.Lemmas.C25Int
 import VrlProofs.Lemmas.C25Entries
 import VrlProofs.Lemmas.C25Time
 import VrlProofs.Lemmas.C25Ip
+import VrlProofs.Lemmas.C25Unflatten
 
 namespace C25
 open Conv
@@ -217,6 +218,78 @@ theorem specUnixInv_model (u : TUnit) (n : Int) :
     | err => simp
     | panic => simp
   · simp [hn]
+
+/-! ### flatten / unflatten -/
+
+open Flat in
+/-- C25 (flatten): `unflatten(flatten(o, sep), sep, recursive) = o` for every non-empty valid
+    separator, either value of `recursive`, and every object `o` of the domain `flatOKM`:
+    along the object spine keys are `sepFree` (do not contain the separator, and no occurrence
+    straddles the join) and sorted, and nested objects are non-empty. Arrays — with whatever
+    they contain — are leaves for both functions and come back unchanged. No depth bound. -/
+theorem unflatten_flatten (sep : Key) (m : VMap) (r : Bool) (hne : sep ≠ [])
+    (hfix : Utf8.fixed sep = true) (hok : flatOKM sep m = true) :
+    ∃ f, flatten (.obj m) (.bytes sep) [] = .ok f ∧
+      unflatten f (.bytes sep) (.bool r) = .ok (.obj m) := by
+  simp only [Utf8.fixed, beq_iff_eq] at hfix
+  refine ⟨.obj (ofList (F sep m)), by simp [flatten, bytesLossy, hfix], ?_⟩
+  have hperm := toList_ofList_perm (F sep m) (F_nodup sep hne m hok)
+  have hlen : ∀ e ∈ toList (ofList (F sep m)), e.1.length < weight (.obj (ofList (F sep m))) + 1 := by
+    intro e he
+    have := key_lt_weightM _ e he
+    simp only [weight]
+    omega
+  have h := unflattenStep_spec sep hne r (weight (.obj (ofList (F sep m))))
+    (fun es' => unflattenEntries (weight (.obj (ofList (F sep m)))) sep r es')
+    (fun m' es' h1 h2 h3 h4 => unflattenEntries_spec sep hne r _ m' es' h1 h2 h3 h4)
+    m _ hok hperm hlen
+  simp only [unflatten, bytesLossy, hfix, unflattenEntries, h]
+
+/-- the domain as the property words it ("keys contain no separator, no empty containers"),
+    minus the finding class `D_sep_overlap`, is inside the domain of the theorem. -/
+theorem flatOKM_of_stated (sep : Key) : (m : VMap) → VMap.Sorted m = true → statedOKM sep m = true →
+    D_sep_overlapM sep m = false → flatOKM sep m = true
+  | .nil, _, _, _ => rfl
+  | .cons k v rest, hs, hst, hd => by
+    simp only [VMap.Sorted, Bool.and_eq_true] at hs
+    simp only [statedOKM, Bool.and_eq_true] at hst
+    simp only [D_sep_overlapM, Bool.or_eq_false_iff, Bool.and_eq_false_iff, Bool.not_eq_false'] at hd
+    have hk : sepFree sep k = true := by
+      rcases hd.1.1 with h | h
+      · rw [hst.1.1] at h; cases h
+      · exact h
+    have hv : flatOKV sep v = true := by
+      cases v with
+      | obj m' =>
+        simp only [statedOK, Bool.and_eq_true] at hst
+        simp only [Value.Sorted] at hs
+        simp only [D_sep_overlapV] at hd
+        simp only [flatOKV, Bool.and_eq_true]
+        exact ⟨hst.1.2.1, flatOKM_of_stated sep m' hs.1.1 hst.1.2.2 hd.1.2⟩
+      | _ => rfl
+    simp only [flatOKM, Bool.and_eq_true]
+    exact ⟨⟨⟨hk, hv⟩, hs.1.2⟩, flatOKM_of_stated sep rest hs.2 hst.2 hd.2⟩
+
+theorem specFlatten_partial (sep : Key) (m : VMap) (r : Bool) (hfix : Utf8.fixed sep = true)
+    (hd : D_sep_overlapM sep m = false) :
+    specFlatten sep m ((Flat.flatten (.obj m) (.bytes sep) []).bind fun f =>
+      Flat.unflatten f (.bytes sep) (.bool r)) = true := by
+  unfold specFlatten
+  by_cases hne : sep = []
+  · simp [hne]
+  · have hdom : ∀ (h : flatOKM sep m = true), restores
+        ((Flat.flatten (.obj m) (.bytes sep) []).bind fun f =>
+          Flat.unflatten f (.bytes sep) (.bool r)) (.obj m) = true := by
+      intro h
+      obtain ⟨f, h1, h2⟩ := unflatten_flatten sep m r hne hfix h
+      simp [h1, Res.bind, h2, restores]
+    by_cases h1 : flatOKM sep m = true
+    · simp [hdom h1]
+    · by_cases h2 : VMap.Sorted m = true ∧ statedOKM sep m = true
+      · exact absurd (flatOKM_of_stated sep m h2.1 h2.2 hd) h1
+      · have : (VMap.Sorted m && statedOKM sep m) = false := by
+          cases hs : VMap.Sorted m <;> cases ht : statedOKM sep m <;> simp_all
+        simp [h1, this]
 
 /-! ### ip_aton / ip_ntoa, ip_pton / ip_ntop, mapped addresses -/
 
